@@ -96,6 +96,17 @@ def program_for(expr, form):
         t = form[-1]
         return ('x%s = %s\nPRINT x%s\nCALL s((%s))\nSUB s (p%s)\n'
                 'PRINT p%s\nEND SUB\n' % (t, expr, t, expr, t, t))
+    if form == 'byval':
+        # an expression argument is passed by value at every level: the
+        # callee's assignment must not reach the caller's variable
+        t, wrapped = expr
+        return ('a%s = 5\nCALL s(%s)\nPRINT a%s\ns %s\nPRINT a%s\n'
+                'b& = 3\nCALL s(%s)\nPRINT b&\n'
+                'SUB s (p%s)\np%s = p%s + 1\nPRINT p%s\nEND SUB\n' % (
+                    t, wrapped.format('a' + t), t,
+                    wrapped.format('a' + t), t,
+                    wrapped.format('b&') if t != '&' else '(b&)',
+                    t, t, t, t))
     # static array bound: the compile-time bound decides the layout, the
     # generated code evaluates the bound again at run time
     return ('v = 7\nDIM a(%s TO 3 + (%s)) AS INTEGER\nw = 9\n'
@@ -150,6 +161,11 @@ def items(cfg):
              '16777216.5', '2.5#', '3.5#', '.5#', '-.5#', '32767.5#',
              '-32768.5#', '2147483647.5#', '-2147483648.5#',
              '2147483647.4999', '8388608.5', '4.5', '-4.5', '1.5', '-2.5']
+    for t in '%&!#':
+        for w in ('({0})', '+{0}', '-(-{0})', '{0} + 0', '({0}) * 1',
+                  '+({0})', '(+{0})', '{0} - 0', '0 + {0}', '1 * {0}',
+                  'NOT (NOT {0})' if t in '%&' else '({0})'):
+            out.append(((t, w), 'byval'))
     seen = set()
     for v in lits:
         if v in seen:
